@@ -609,6 +609,7 @@ pub fn run(rep: &mut Report, thorough: bool) {
         if let Ok(mut d) = crate::driver::Driver::spawn(&cfg) {
             for p in &sel {
                 let mut forms: Vec<(String, String)> = Vec::new();
+                let mut form_cmds: Vec<Vec<Cmd>> = Vec::new();
                 for (vn, f) in [("IPv4", &f4), ("IPv6", &f6)] {
                     for padded in [false, true] {
                         let c = ck.get(&key_of(f)).copied().unwrap_or(0).wrapping_add(1);
@@ -627,6 +628,7 @@ pub fn run(rep: &mut Report, thorough: bool) {
                             let last = o.last().unwrap();
                             let tcp = p.via != Via::UdpOnly;
                             forms.push((format!("{} {}", vn, if padded { "padded" } else { "exact" }), canon_checked(p.name, &p.bytes, last.reply.as_deref(), &ctx_of(f, tcp))));
+                            form_cmds.push(cmds.clone());
                         }
                     }
                 }
@@ -637,7 +639,8 @@ pub fn run(rep: &mut Report, thorough: bool) {
                             key: format!("port-or-version-dependence:link-padding:{}", p.name),
                             what: format!("payload '{}' ({}): canonical reply {} differs from ({}) {}", p.name, forms[k].0, &forms[k].1[..forms[k].1.len().min(80)], forms[0].0, &forms[0].1[..forms[0].1.len().min(80)]),
                             cfg: cfg.clone(),
-                            cmds: vec![],
+                            // both conversations, each behind a table reset
+                            cmds: [form_cmds[0].clone(), form_cmds[k].clone()].concat(),
                             idx: n,
                             stage: "link-padding".into(),
                         });
